@@ -193,6 +193,22 @@ CloseAll ==
       /\ srcClosed' = srcClosed + (IF Closable /\ (byChild \/ sweep) THEN 1 ELSE 0)
    /\ UNCHANGED <<rem, recv, srcPos, srcBusy, lock>>
 
+\* Tee.aclose() while some child is inside a call (being advanced elsewhere): the children are closed in
+\* index order up to the first busy one, whose aclose() Python refuses (RuntimeError: asynchronous generator
+\* is already running); the handle neither waits for it nor touches the later children or the source.
+Busy(c) == cs[c] \in {"lockwait", "insrc", "exiting", "exitstop", "exitcancel", "exitfail"}
+CloseAllBusy ==
+   /\ AllowClose
+   /\ \E c \in Child : Busy(c)
+   /\ LET b == CHOOSE c \in Child : Busy(c) /\ \A d \in Child : d < c => ~Busy(d)
+          closes(c) == c < b /\ cs[c] \in {"unstarted", "idle"}
+          runs(c) == c < b /\ (cs[c] = "idle" \/ (cs[c] = "unstarted" /\ ~UnstartedCloseLeaks)) IN
+      /\ last' = <<"closeallbusy", b>>
+      /\ cs' = [c \in Child |-> IF closes(c) THEN "closed" ELSE cs[c]]
+      /\ reg' = [c \in Child |-> reg[c] /\ ~runs(c)]
+      /\ buf' = [c \in Child |-> IF runs(c) THEN <<>> ELSE buf[c]]
+   /\ UNCHANGED <<rem, recv, srcPos, srcBusy, srcClosed, lock>>      \* the busy child is still a peer: nobody was the last one
+
 \* the source raises instead of delivering (at the last tick of a pull): the exception
 \* leaves `async with lock` and the finally block like a cancellation does, and reaches
 \* the consumer of child c; the class-based source itself survives
@@ -209,7 +225,7 @@ Fail(c) ==
    /\ srcBusy' = srcBusy \ {c}
    /\ UNCHANGED <<rem, recv, srcPos>>
 
-Next == \/ (CloseAll \/ \E c \in Child : Anext(c) \/ Grant(c) \/ Tick(c) \/ ExitStep(c) \/ Close(c) \/ Cancel(c)) /\ UNCHANGED nfail
+Next == \/ (CloseAll \/ CloseAllBusy \/ \E c \in Child : Anext(c) \/ Grant(c) \/ Tick(c) \/ ExitStep(c) \/ Close(c) \/ Cancel(c)) /\ UNCHANGED nfail
         \/ \E c \in Child : Fail(c)
 
 Spec == Init /\ [][Next]_vars
